@@ -14,7 +14,7 @@ from pyvc.values import real_val
 from wntr.epanet import util as U
 from wntr.epanet.util import FlowUnits, HydParam, QualParam, MassUnits
 
-P = ["C17"]
+P = ["C17", "C03"]   # C03: BinFile / INP conversions rest on these factors being the physical constants and mutually inverse
 
 # ---- specification constants, written from the property statement (not read from the code) --------
 FT = Fraction("0.3048")
